@@ -347,6 +347,9 @@ class Executor:
 
     def _clear_shared_memory(self, app_id: int) -> None:
         self._shared_memories.pop(app_id)
+        # Also forget the entry of the global manager, otherwise the same app ID
+        # can never be registered again on this node.
+        SharedMemoryManager.remove_shared_memory(node_name=self._name, key=app_id)
 
     def _reset_program_counter(self, subroutine_id: int) -> None:
         """Resets the program counter for a given subroutine ID"""
